@@ -24,7 +24,7 @@ CHECKS = {
                 text="Boundary matrices between two disjoint grids (single and double layer; Laplace, Helmholtz, modified Helmholtz) are proved equal, entry by entry and for every geometry / kernel value, to the potential of each trial basis function evaluated at map_to_point_cloud's points and tested by quadrature, on 1-2 x 1-2 element grids (4-5 thorough), orders 1-2 (3).",
                 ref="3/C07"),
     "C08": dict(cat="other", tech="symbolic execution of the real potential / far-field kernel functions (values and second-order forward-mode jets with respect to the evaluation point) and of the potential assemblers through the public API (uninterpreted Green's function, free geometry, symbolic points, complex densities and wavenumber); QF_NRA queries with abstracted sqrt/exp/cos/sin + congruence and angle-addition lemma instances (z3/cvc5)",
-                text="Bounded symbolic verification: all 8 potential / far-field kernels equal independently written closed forms for all points, normals and complex wavenumbers; the real kernel code satisfies Laplace / Helmholtz / modified Helmholtz equations exactly (jets); Maxwell potential assemblers satisfy curl E = ik H and div H = 0 per quadrature point, and the hard-coded gradient factor equals the gradient of the real kernel; scalar and Maxwell potential / far-field assemblers equal the textbook quadrature sums on meshes of 2-6 elements for every geometry, density and evaluation point; far-field translation phase law for real k. The r -> infinity limit, curl H = -ik E and div E = 0 (true only up to quadrature error) are outside the solver claim and validated numerically. One known finding (far-field kernels ignore Im k).",
+                text="Bounded symbolic verification: all 8 potential / far-field kernels equal independently written closed forms for all points, normals and complex wavenumbers; the real kernel code satisfies Laplace / Helmholtz / modified Helmholtz equations exactly (jets); Maxwell potential assemblers satisfy curl E = ik H and div H = 0 per quadrature point, and the hard-coded gradient factor equals the gradient of the real kernel; scalar and Maxwell potential / far-field assemblers equal the textbook quadrature sums on meshes of 2-6 elements for every geometry, density and evaluation point; far-field translation phase law for real k. The r -> infinity limit, curl H = -ik E and div E = 0 (true only up to quadrature error) are outside the solver claim and validated numerically. One defect repaired (far-field kernels ignored Im k).",
                 ref="3/C08"),
     "C09": dict(cat="other", tech="symbolic execution of the real space constructors over a symbolic support mask and symbolic option flags (all constructor paths, z3 LIA counting formulas) and of space.evaluate / GridFunction.evaluate with symbolic vertex coordinates and local points (polynomial identities, z3/cvc5)",
                 text="Bounded symbolic verification: P1 values, RWG normal and SNC tangential components are continuous across a shared edge for all 18 consistently oriented local numberings, all vertex coordinates and every point of the edge; DP0/P1/DUAL0/DUAL1 bases sum to one at every point of every (barycentric) element of a closed mesh and the dual functions take their documented nodal values; on every path of the P1/RWG/SNC/DP0/DP1 constructors over all support masks x option flags on meshes of 4-6 (8) elements the dof count equals an independent counting formula and local2global/global2local are mutually inverse with one entity per dof. One defect repaired (DUAL1), three known findings (empty spaces report one dof).",
